@@ -813,6 +813,7 @@ pub struct Stats {
     pub features: u64,
     pub step_cap_hits: u64,
     pub schedule_cap_hit: bool,
+    pub time_cap_hit: bool,
     pub first_choices: Vec<(u16, u16)>,
     pub by_preemptions: [u64; 8],
 }
@@ -823,6 +824,8 @@ pub struct Config {
     pub workers: usize,
     pub max_schedules: u64,
     pub stop_at_first: bool,
+    /// wall-clock cap for this exploration in seconds (0 = none); a hit is reported, never hidden
+    pub max_seconds: u64,
 }
 
 fn run_execution(model: &dyn Model, pool: &mut Pool, e: &mut Exec) -> (End, String) {
@@ -1025,6 +1028,8 @@ pub fn explore(model: &dyn Model, cfg: &Config) -> Stats {
     let total_sched = AtomicU64::new(0);
     let merged: Mutex<(Stats, HashSet<u64>)> = Mutex::new((Stats::default(), HashSet::new()));
     let workers = cfg.workers.max(1);
+    let t_start = std::time::Instant::now();
+    let timed_out = AtomicBool::new(false);
     std::thread::scope(|s| {
         for _ in 0..workers {
             s.spawn(|| {
@@ -1126,6 +1131,10 @@ pub fn explore(model: &dyn Model, cfg: &Config) -> Stats {
                         st.schedule_cap_hit = true;
                         stop.store(true, StdOrd::Relaxed);
                     }
+                    if cfg.max_seconds > 0 && tot % 1024 == 0 && t_start.elapsed().as_secs() >= cfg.max_seconds {
+                        timed_out.store(true, StdOrd::Relaxed);
+                        stop.store(true, StdOrd::Relaxed);
+                    }
                 }
                 st.transitions = e.transitions;
                 st.features = e.features;
@@ -1172,6 +1181,7 @@ pub fn explore(model: &dyn Model, cfg: &Config) -> Stats {
     });
     let (mut st, hs) = merged.into_inner().unwrap();
     st.states = hs.len() as u64;
+    st.time_cap_hit = timed_out.load(StdOrd::Relaxed);
     st
 }
 
